@@ -458,26 +458,51 @@ func (c *Ctx) rulesC08(a *coreAnchors) {
 		}
 		c.check(toRet, "C08.to", "timeout returns Canceled", ph.Pos(), "a handler overrunning HandlerTimeout must cancel the transition")
 		// deadline path
+		// the three actions, in processHandlers or a helper it was split into
 		var flush ssa.Instruction
-		for _, w := range writesOfFieldIn(ph, a.fQueue) {
-			flush = w.Instr
-		}
 		fLHD := c.field(pm, "Machine", "LastHandlerDeadline")
 		var fork, store ssa.Instruction
-		for _, b := range ph.Blocks {
-			for _, ins := range b.Instrs {
-				if g, ok := ins.(*ssa.Go); ok && g.Call.StaticCallee() == hl {
-					fork = g
-				}
-				if call, ok := ins.(*ssa.Call); ok && calleeName(&call.Call) == "Store" && len(call.Call.Args) == 2 && fieldOf(call.Call.Args[0]) == fLHD {
-					store = call
+		var forks, stores []ssa.Instruction
+		for _, hf := range c.hostedFns(ph) {
+			for _, w := range writesOfFieldIn(hf, a.fQueue) {
+				flush = w.Instr
+			}
+			for _, b := range hf.Blocks {
+				for _, ins := range b.Instrs {
+					if g, ok := ins.(*ssa.Go); ok && g.Call.StaticCallee() == hl {
+						forks = append(forks, g)
+					}
+					if call, ok := ins.(*ssa.Call); ok && calleeName(&call.Call) == "Store" && len(call.Call.Args) == 2 && fieldOf(call.Call.Args[0]) == fLHD {
+						stores = append(stores, call)
+					}
 				}
 			}
+		}
+		// other hosted helpers restart the loop too (recoverToErr): prefer the
+		// fork / store next to the flush
+		pick := func(xs []ssa.Instruction) ssa.Instruction {
+			var any ssa.Instruction
+			for _, x := range xs {
+				if flush != nil && x.Parent() == flush.Parent() {
+					return x
+				}
+				if c.standIn(ph, x) == x {
+					any = x
+				} else if any == nil {
+					any = x
+				}
+			}
+			return any
+		}
+		fork, store = pick(forks), pick(stores)
+		if flush != nil && fork != nil && store != nil && !(flush.Parent() == fork.Parent() && fork.Parent() == store.Parent()) {
+			// compare through the instructions that stand for them in processHandlers
+			flush, fork, store = c.standIn(ph, flush), c.standIn(ph, fork), c.standIn(ph, store)
 		}
 		c.check(flush != nil && fork != nil && store != nil, "C08.to", "deadline path flushes the queue, forks a handler loop and records the deadline", ph.Pos(), "one of the three actions is missing")
 		if flush != nil && fork != nil && store != nil {
 			c.check(flush.Block() == fork.Block() || fork.Block().Dominates(flush.Block()) || flush.Block().Dominates(fork.Block()), "C08.to", "deadline actions are on one path", flush.Pos(), "flush and fork must happen together")
-			c.check(dominatesInstr(fork, store) || dominatesInstr(flush, store), "C08.to", "Backoff starts after the flush", store.Pos(), "LastHandlerDeadline must be stored on the deadline path")
+			c.check(fork == store || flush == store || dominatesInstr(fork, store) || dominatesInstr(flush, store), "C08.to", "Backoff starts after the flush", store.Pos(), "LastHandlerDeadline must be stored on the deadline path")
 		}
 	}
 	c.floor("C08.to", 2)
